@@ -47,7 +47,7 @@ var c10BufSizes = []int{4096, 16, 17, 32, 64, 256}
 const c10BatchSize = 50
 
 func c10KnobsOf(sc *core.Scenario) c10Knobs {
-	return c10Knobs{lit0: sc.C("lit0") == 1, lbracket: sc.C("lbracket") == 1, donetag: sc.C("donetag") == 1, listlit: sc.C("listlit") == 1}
+	return c10Knobs{lit0: sc.C("lit0") == 1, lbracket: sc.C("lbracket") == 1, donetag: sc.C("donetag") == 1, listlit: sc.C("listlit") == 1, syskw: sc.C("syskw") == 1}
 }
 
 func (C10) Generate(r *core.Rand, tier string, idx int) *core.Scenario {
@@ -60,7 +60,7 @@ func (C10) Generate(r *core.Rand, tier string, idx int) *core.Scenario {
 	if r.P(1, 16) {
 		sc.Cfg["lbracket"] = 1
 	}
-	for _, k := range []string{"lit0", "donetag", "listlit"} {
+	for _, k := range []string{"lit0", "donetag", "listlit", "syskw"} {
 		if r.P(1, 2) {
 			sc.Cfg[k] = 1
 		}
